@@ -27,8 +27,8 @@ BUDGET = {"quick": dict(examples=6000, shards=1), "thorough": dict(examples=1000
 
 @st.composite
 def _case(draw):
-    ref_lat = draw(st.one_of(gen.spread(-60.0, 60.0, bins=8), gen.spread(-60.0, 60.0, bins=8), st.sampled_from([0.0, 60.0, -60.0, 45.0])))
-    ref_lon = draw(st.one_of(gen.fl(-180.0, 180.0), st.sampled_from([0.0, 179.9, -179.9, 180.0, -180.0, 179.99, -179.99, 179.9995])))
+    ref_lat = draw(st.one_of(gen.spread(-60.0, 60.0, bins=8), gen.spread(-60.0, 60.0, bins=8), st.sampled_from([0.0, 60.0, -60.0, 45.0, -0.0005, 0.0005])))
+    ref_lon = draw(st.one_of(gen.fl(-180.0, 180.0), st.sampled_from([0.0, 179.9, -179.9, 180.0, -180.0, 179.99, -179.99, 179.9995, -0.001, 0.001, -0.00001])))
     dist = draw(gen.spread(1.0, 5000.0, bins=7, log=True))
     bearing = draw(st.one_of(gen.spread(0.0, 359.999, bins=8), gen.spread(0.0, 359.999, bins=8), gen.spread(0.0, 359.999, bins=8),
                              st.sampled_from([0.0, 90.0, 180.0, 270.0])))
